@@ -283,6 +283,10 @@ func c07Specs(quick bool) []*SeqSpec {
 		op(0, withEF(L(0, 6, 1, 0, 0xffff, 0, 1), efZeroAof|fMinute)),
 		op(0, withEF(L(0, 7, 1, 0, 0xffff, 0, 1), efZeroAof|fMilli)),
 		op(0, withEF(L(0, 8, 1, 0, 0x8000, 0, 1), efZeroAof)),
+		// the SMALLEST values of the coarse units, logged at once and after the default delay
+		op(0, withEF(L(0, 9, 1, 0, 1, 0, 1), efZeroAof|fMinute)),
+		op(0, withEF(L(0, 11, 1, 0, 1, 0, 1), fMinute)),
+		op(0, withEF(L(0, 12, 1, 0, 2, 0, 1), fMinute)),
 		tick(1 * sec), tick(3 * sec),
 	}})
 	// terms shortened by an update before the hold is released or ends (the log then holds records whose own
